@@ -372,6 +372,81 @@ fix(
 )
 
 
+# ---- repairs added while building the checks (defects found by the builders) ----
+fix(
+    "C03a",
+    "fix: summing a variable over the eternity period is refused",
+    (
+        SIM,
+        "                f\"the period {period}: eternal variables can't be summed \"\n                \"over time.\"\n            )\n            raise ValueError(\n                msg,\n            )\n\n        return sum(\n",
+        "                f\"the period {period}: eternal variables can't be summed \"\n                \"over time.\"\n            )\n            raise ValueError(\n                msg,\n            )\n\n"
+        "        if period.unit not in (\n            periods.DateUnit.isoformat + periods.DateUnit.isocalendar\n        ):\n"
+        "            msg = (\n                f\"Unable to ADD variable '{variable.name}' over the period \"\n                f\"{period}: eternal periods can't be summed over time.\"\n            )\n"
+        "            raise ValueError(\n                msg,\n            )\n\n        return sum(\n",
+    ),
+)
+fix(
+    "C03b",
+    "fix: a day or weekday variable requested for a period of another unit is refused up front",
+    (
+        SIM,
+        "        if period.size != 1:\n            msg = f\"Unable to compute variable '{variable.name}' for period {period}: '{variable.name}' must be computed for a whole {variable.definition_period}.",
+        "        if (\n            variable.definition_period == periods.DateUnit.DAY\n            and period.unit != periods.DateUnit.DAY\n        ):\n"
+        "            msg = f\"Unable to compute variable '{variable.name}' for period {period}: '{variable.name}' must be computed for a whole day. You can use the ADD option to sum '{variable.name}' over the requested period, or change the requested period to 'period.first_day'.\"\n"
+        "            raise ValueError(\n                msg,\n            )\n\n"
+        "        if (\n            variable.definition_period == periods.DateUnit.WEEKDAY\n            and period.unit != periods.DateUnit.WEEKDAY\n        ):\n"
+        "            msg = f\"Unable to compute variable '{variable.name}' for period {period}: '{variable.name}' must be computed for a whole weekday. You can use the ADD option to sum '{variable.name}' over the requested period, or change the requested period to 'period.first_weekday'.\"\n"
+        "            raise ValueError(\n                msg,\n            )\n\n"
+        "        if period.size != 1:\n            msg = f\"Unable to compute variable '{variable.name}' for period {period}: '{variable.name}' must be computed for a whole {variable.definition_period}.",
+    ),
+)
+fix(
+    "C13c",
+    "fix: a cloned simulation gets its own set of invalidated cache entries",
+    (
+        SIM,
+        "        new.persons = self.persons.clone(new)\n",
+        "        # The clone purges its own cache entries only.\n        new.invalidated_caches = set()\n\n        new.persons = self.persons.clone(new)\n",
+    ),
+)
+fix(
+    "C14d",
+    "fix: annualising a neutralised variable keeps it neutralised",
+    (
+        "openfisca_core/variables/helpers.py",
+        "            for key, formula in variable.formulas.items()\n        },\n    )\n\n    return new_variable\n",
+        "            for key, formula in variable.formulas.items()\n        },\n    )\n    # `clone()` rebuilds from the class: carry the instance state over.\n    new_variable.is_neutralized = variable.is_neutralized\n\n    return new_variable\n",
+    ),
+)
+fix(
+    "C14e",
+    "fix: successive parameter modifiers of a reform accumulate",
+    (
+        "openfisca_core/reforms/reform.py",
+        "        baseline_parameters = self.baseline.parameters\n",
+        "        # Start from the reform's current parameters, so that successive modifiers accumulate.\n        baseline_parameters = self.parameters\n",
+    ),
+)
+fix(
+    "C19c",
+    "fix: restore_simulation takes the person count from the persons' own dumped ids",
+    (
+        "openfisca_core/tools/simulation_dumper.py",
+        "        _restore_entity(population, entities_dump_dir)\n        population.count = person_count\n",
+        "        _restore_entity(population, entities_dump_dir)\n        population.count = len(population.ids)\n",
+    ),
+)
+fix(
+    "C19d",
+    "fix: restoring a group entity without roles leaves members_role unset instead of raising",
+    (
+        "openfisca_core/tools/simulation_dumper.py",
+        "    if len(flattened_roles) == 0:\n        population.members_role = numpy.int16(0)\n",
+        "    if len(flattened_roles) == 0:\n        population.members_role = None\n",
+    ),
+)
+
+
 def apply(tree, idents):
     tree = pathlib.Path(tree)
     for ident in idents:
